@@ -502,6 +502,25 @@ def c07_prediction(case, rng, kp0):
             if not np.array_equal(alone[:, 1:], ep_p[l]):
                 return False, dict(what='prediction of one episode depends on the other episodes', label=l,
                                    relift_state=relift)
+    # the prediction is a function of the VALUES of the data: integer-typed arrays holding the same
+    # numbers as float arrays must give the same trajectories (both call forms)
+    Xi = np.round(2 * X)
+    if ep:
+        Xi[:, 0] = X[:, 0]
+    x0i = pykoop.extract_initial_conditions(Xi, min_samples=w, n_inputs=nu, episode_feature=ep)
+    ui = pykoop.extract_input(Xi, n_inputs=nu, episode_feature=ep)
+    for relift in (True, False):
+        try:
+            a1 = kp.predict_trajectory(Xi.astype(np.int64), relift_state=relift)
+            a2 = kp.predict_trajectory(x0i.astype(np.int64), ui.astype(np.int64), relift_state=relift)
+            b1 = kp.predict_trajectory(Xi, relift_state=relift)
+        except Exception as e:  # noqa
+            return False, dict(what=f'predict_trajectory on integer-typed data raised {type(e).__name__}: {e}',
+                               relift_state=relift)
+        if not (close(a1, b1, 1e-9) and close(a2, b1, 1e-9)):
+            if np.all(np.isfinite(b1)):
+                return False, dict(what='prediction depends on the dtype of the data (integer-typed arrays with the same '
+                                        'values give another trajectory)', relift_state=relift)
     return True, None
 
 
